@@ -76,6 +76,7 @@ type Exec struct {
 	loopHeapStored map[*ssa.Alloc]bool
 	siteNames      map[*ssa.Function]map[token.Pos]string
 	siteCanon      map[*ssa.Function]map[token.Pos]string
+	privBox        map[*ssa.Alloc]bool
 	curLoopHead    *ssa.BasicBlock
 	embCodes       map[string]int
 	given          map[string]Val
@@ -544,6 +545,9 @@ func (x *Exec) VerifyFunc(key string) (err error) {
 	for _, fv := range fn.FreeVars {
 		v := st.freshVal(fv.Type(), "fv_"+fv.Name())
 		fr.bind = append(fr.bind, v)
+	}
+	for i, fv := range fn.FreeVars {
+		fr.fvEntry = append(fr.fvEntry, x.freeVarValue(st, fr, i, fv)) // value of the captured variable at entry
 	}
 	st.frames = []*Frame{fr}
 	fr.block = fn.Blocks[0]
@@ -2204,7 +2208,7 @@ func (x *Exec) havocModset(st *State, ms *modset) {
 		}
 	}
 	if ms.heapAll {
-		st.havocAll()
+		x.havocHeapKeepBoxes(st, x.loopHeapStored)
 		return
 	}
 	// heap keys: drop every key that matches one of the modified fields (whole array forgotten)
